@@ -148,6 +148,11 @@ def _mm_grid(tier):
                 if d == 1 and (isinstance(ca, str) or isinstance(cb, str)):
                     continue
                 out.append({'shape': s, 'cols_b': cols_b, 'ranks_b': rb, 'cplx_a': ca, 'cplx_b': cb})
+    # outer products |x><y| and products with contracted modes of size 1, both factors of rank 2 at every bond
+    for (rows, cols, cb_) in (([2, 2], [1, 1], [2, 2]), ([2, 2, 2], [1, 1, 1], [2, 1, 2]), ([2, 1, 2], [1, 2, 1], [2, 2, 1]), ([1, 2], [1, 1], [2, 2])):
+        d = len(rows)
+        for ca, cb in ((False, False), (True, True)):
+            out.append({'shape': {'rows': rows, 'cols': cols, 'ranks': [1] + [2] * (d - 1) + [1]}, 'cols_b': cb_, 'ranks_b': [1] + [2] * (d - 1) + [1], 'cplx_a': ca, 'cplx_b': cb})
     return out
 
 
